@@ -109,7 +109,7 @@ impl LineProgram {
         // We require a special opcode for a line advance of 0.
         // See the debug_asserts in generate_row().
         assert!(line_encoding.line_base <= 0);
-        assert!(line_encoding.line_base + line_encoding.line_range as i8 > 0);
+        assert!(i16::from(line_encoding.line_base) + i16::from(line_encoding.line_range) > 0);
         let mut program = LineProgram {
             none: false,
             encoding,
@@ -435,14 +435,16 @@ impl LineProgram {
         // Advance the line, address, and operation index.
         let line_base = i64::from(self.line_encoding.line_base) as u64;
         let line_range = u64::from(self.line_encoding.line_range);
-        let line_advance = self.row.line as i64 - self.prev_row.line as i64;
+        let line_advance = self.row.line.wrapping_sub(self.prev_row.line) as i64;
         let op_advance = self.op_advance();
 
         // Default to special advances of 0.
         let special_base = u64::from(OPCODE_BASE);
         // TODO: handle lack of special opcodes for 0 line advance
         debug_assert!(self.line_encoding.line_base <= 0);
-        debug_assert!(self.line_encoding.line_base + self.line_encoding.line_range as i8 >= 0);
+        debug_assert!(
+            i16::from(self.line_encoding.line_base) + i16::from(self.line_encoding.line_range) >= 0
+        );
         let special_default = special_base.wrapping_sub(line_base);
         let mut special = special_default;
         let mut use_special = false;
@@ -460,15 +462,18 @@ impl LineProgram {
 
         if op_advance != 0 {
             // Using ConstAddPc can save a byte.
-            let (special_op_advance, const_add_pc) = if special + op_advance * line_range <= 255 {
+            let (special_op_advance, const_add_pc) = if special
+                .saturating_add(op_advance.saturating_mul(line_range))
+                <= 255
+            {
                 (op_advance, false)
             } else {
                 let op_range = (255 - special_base) / line_range;
                 (op_advance - op_range, true)
             };
 
-            let special_op = special_op_advance * line_range;
-            if special + special_op <= 255 {
+            let special_op = special_op_advance.saturating_mul(line_range);
+            if special.saturating_add(special_op) <= 255 {
                 special += special_op;
                 use_special = true;
                 if const_add_pc {
@@ -1233,7 +1238,12 @@ mod convert {
                 return Err(ConvertError::MissingCompilationName);
             };
 
-            if from_header.line_base() > 0 {
+            // `LineProgram::new` panics if there is no special opcode for a line
+            // advance of 0, so validate the untrusted line encoding first.
+            if from_header.line_base() > 0
+                || line_encoding.line_base > 0
+                || i16::from(line_encoding.line_base) + i16::from(line_encoding.line_range) <= 0
+            {
                 return Err(ConvertError::InvalidLineBase);
             }
             let mut program = LineProgram::new(
@@ -1307,6 +1317,13 @@ mod convert {
         ) -> ConvertResult<(LineString, DirectoryId, Option<FileInfo>)> {
             let from_name =
                 Self::convert_string(from_file.path_name(), from_dwarf, encoding, line_strings)?;
+            if let LineString::String(ref val) = from_name {
+                // `LineProgram::add_file` panics for an empty name, which can't
+                // be encoded in DWARF version <= 4.
+                if encoding.version <= 4 && val.is_empty() {
+                    return Err(ConvertError::UnsupportedLineInstruction);
+                }
+            }
             let from_dir = from_file.directory_index();
             if from_dir >= dirs.len() as u64 {
                 return Err(ConvertError::InvalidDirectoryIndex);
@@ -1401,7 +1418,8 @@ mod convert {
                     continue;
                 }
                 if self.from_row.end_sequence() {
-                    return Ok(Some(ConvertLineRow::EndSequence(self.from_row.address())));
+                    let address_offset = self.convert_address_offset(self.from_row.address())?;
+                    return Ok(Some(ConvertLineRow::EndSequence(address_offset)));
                 }
                 if let Some(address) = self.address.take() {
                     self.state = ConvertLineState::ConvertRow;
@@ -1414,9 +1432,20 @@ mod convert {
             Ok(None)
         }
 
+        /// Check that an address offset can be encoded by the converted program.
+        ///
+        /// The writer divides address advances by the minimum instruction length.
+        fn convert_address_offset(&self, address_offset: u64) -> ConvertResult<u64> {
+            let min_inst_len = u64::from(self.program.line_encoding.minimum_instruction_length);
+            if min_inst_len > 1 && address_offset % min_inst_len != 0 {
+                return Err(ConvertError::UnsupportedLineInstruction);
+            }
+            Ok(address_offset)
+        }
+
         fn convert_row(&self) -> ConvertResult<LineRow> {
             Ok(LineRow {
-                address_offset: self.from_row.address(),
+                address_offset: self.convert_address_offset(self.from_row.address())?,
                 op_index: self.from_row.op_index(),
                 file: {
                     let file = self.from_row.file_index();
